@@ -24,8 +24,14 @@ ELEMENT_KIND = {"TSource": "source", "TSourceDef": "source", "TOp1": "operation"
 # generator
 # ---------------------------------------------------------------------------------------------
 
+SHORTHANDS = ["model:TFitModel", "model:TFitModel:degree=2", "model:TFitModel:degree=3,label=x", "model:TFitModel:flag=true,degree=2",
+              "model:TFitModel:label=2.5"]
+
+
 def deep_value(rnd, depth=0):
     r = rnd.random()
+    if rnd.random() < 0.07:
+        return rnd.choice(SHORTHANDS)          # the documented `model:` parameter shorthand: hashed in its resolved form
     if depth >= 2 or r < 0.45:
         return rnd.choice([1, 2.5, "s", "a b", True, None, 0, -3, "1"])
     if r < 0.7:
@@ -239,6 +245,37 @@ def to_j(v):
     return {"t": json.dumps(v)}
 
 
+def doc_scalar(text):
+    low = text.lower()
+    if low in ("true", "false"):
+        return low == "true"
+    for caster in (int, float):
+        try:
+            return caster(text)
+        except ValueError:
+            pass
+    return text
+
+
+def resolve_doc(v):
+    """Documented meaning of parameter shorthands (workflows_fitting_models.rst): "model:<Class>:k=v,…" denotes the
+    descriptor {class: <fully qualified name>, kwargs: {k: v, …}}; identities are those of the resolved configuration."""
+    if isinstance(v, dict):
+        return {k: resolve_doc(x) for k, x in v.items()}
+    if isinstance(v, list):
+        return [resolve_doc(x) for x in v]
+    if isinstance(v, str) and v.startswith("model:"):
+        cls, _, args = v[len("model:"):].partition(":")
+        kwargs = {}
+        for item in args.split(","):
+            if item:
+                k, _, val = item.partition("=")
+                kwargs[k] = doc_scalar(val)
+        from props import components as C
+        return {"class": fqcn(cls) if hasattr(C, cls) else "<unresolvable>." + cls, "kwargs": kwargs}
+    return v
+
+
 def fqcn(name):
     from props import components as C
     cls = getattr(C, name)
@@ -281,7 +318,7 @@ def processor_ref(node):
 
 
 def model_nodes(nodes):
-    return [{"processor_ref": json.dumps(processor_ref(n))[1:-1], "params": to_j(n.get("parameters") or {}),
+    return [{"processor_ref": json.dumps(processor_ref(n))[1:-1], "params": to_j(resolve_doc(n.get("parameters") or {})),
              "sweep": (sweep_cfg(n) if "derive" in n else None)} for n in nodes]
 
 
